@@ -386,10 +386,27 @@ def check(ctx):
     # to the timed-out attempt - can interleave between two attempts of one request)
     for qual in (f"{PROTO}.get", "GeckoAsyncStructure.get"):
         fi = repo.func(qual)
-        withs = [n for n in walk_no_nested(fi.node) if isinstance(n, ast.AsyncWith) and any(is_lock_expr(it.context_expr, n) for it in n.items)]
-        loops = [n for n in walk_no_nested(fi.node) if (isinstance(n, ast.While) and "retry_count" in ast.unparse(n.test))
+        # the operation and the same-class helpers it awaits (an operation split into a wrapper and its body)
+        parts = [fi]
+        for _round in range(2):
+            for f_ in list(parts):
+                for n in walk_no_nested(f_.node):
+                    if isinstance(n, ast.Await) and isinstance(n.value, ast.Call) and isinstance(n.value.func, ast.Attribute) \
+                            and isinstance(n.value.func.value, ast.Name) and n.value.func.value.id == "self" and fi.cls is not None:
+                        h_ = repo.all_methods(fi.cls).get(n.value.func.attr)
+                        if h_ is not None and all(h_ is not p_ for p_ in parts):
+                            parts.append(h_)
+        withs = [(f_, n) for f_ in parts for n in walk_no_nested(f_.node) if isinstance(n, ast.AsyncWith) and any(is_lock_expr(it.context_expr, n) for it in n.items)]
+        loops = [(f_, n) for f_ in parts for n in walk_no_nested(f_.node) if (isinstance(n, ast.While) and "retry_count" in ast.unparse(n.test))
                  or (isinstance(n, ast.For) and "retry_count" in ast.unparse(n.iter))]
-        ok = len(withs) == 1 and len(loops) == 1 and any(loops[0] is x for x in ast.walk(withs[0]))
+        ok = False
+        if len(withs) == 1 and len(loops) == 1:
+            (wf, w), (lf, l_) = withs[0], loops[0]
+            if wf is lf:
+                ok = any(l_ is x for x in ast.walk(w))
+            else:
+                # the lock is taken in the wrapper around the (only) call of the helper that holds the loop
+                ok = any(isinstance(x, ast.Call) and isinstance(x.func, ast.Attribute) and x.func.attr == lf.name for x in ast.walk(w))
         ctx.ob("R2", f"{qual}::lock-spans-all-attempts", ok,
                f"{qual}: the protocol lock does not enclose the whole retry loop (it is taken per attempt or not at all): between two attempts of one request other callers are served, "
                f"so requests are neither atomic nor served in arrival order, and a late reply can be taken by another caller", fi.loc)
